@@ -29,6 +29,7 @@ def collect(prop):
     if only:
         pre = tuple(x.strip() for x in only.split(",") if x.strip())
         engines = [e for e in engines if e.name.startswith(pre)]
+        witness = {k: w for k, w in witness.items() if w[0] in engines}   # witnesses of filtered-out engines cannot be replayed
     return engines, witness, assumptions, covers, infos
 
 
